@@ -1,6 +1,7 @@
 import CarModel.Proofs.Inspect
 import CarModel.Proofs.V2
 import CarModel.Proofs.InspectConv
+import CarModel.Proofs.InspectFull
 /-
 C13 — Inspection reports exactly what a full scan finds.
 -/
@@ -60,16 +61,45 @@ theorem inspect_valid_v1 (H : HashFn) (hU : H.Uniform) (o : ReadOpts) (validate 
     (h63 : (encodeHeaderBody ⟨roots, 1⟩).length < 2 ^ 63)
     (hok : ∀ b ∈ bs, b.wf o.maxSection ∧ b.cid.digest.length ≤ maxDigestAlloc ∧
       (validate = true → sumOk H b.cid b.data = true ∧ verifies H b.cid b.data = true)) :
-    inspect H o validate (payload roots bs) = .ok (expectedStats 1 {} (roots.getD []) bs 0) := by
-  unfold inspect payload
-  rw [readHeader_encode o.maxHeader ⟨roots, 1⟩ _ hwf hmax h63]
-  simp only [ne_eq, not_true_eq_false, false_and, ↓reduceIte, show ¬ ((1 : Nat) = 2) by decide]
-  rw [readHeader_encode o.maxHeader ⟨roots, 1⟩ _ hwf hmax h63]
-  simp only [false_and, ↓reduceIte]
-  have := inspectLoop_sections H hU o validate bs [] ((sectionsBytes bs).length + 1)
-    (by have := sectionsBytes_length_ge bs; omega) hok
-  rw [this]
-  simp [expectedStats, CarHeader.rootList]
+    inspect H o validate (payload roots bs) = .ok (expectedStats 1 {} (roots.getD []) bs 0) :=
+  inspect_layoutV1 H hU o validate roots bs hwf hmax h63 hok
+
+/-- (2') The same on every laid-out CARv2 — any data and index padding, with or without an index,
+    either characteristics flag: inspection succeeds and reports version 2, the header as written, the
+    payload's statistics and the codec the index starts with. -/
+theorem inspect_valid_v2 (H : HashFn) (hU : H.Uniform) (o : ReadOpts) (validate : Bool) (dp ip : Nat)
+    (roots : Option (List Cid)) (bs : List Block) (hasIdx fi : Bool) (index : Bytes) (codec : Nat)
+    (hwf : (CarHeader.mk roots 1).wf) (hmax : (encodeHeaderBody ⟨roots, 1⟩).length ≤ o.maxHeader)
+    (h63 : (encodeHeaderBody ⟨roots, 1⟩).length < 2 ^ 63) (h10 : 10 ≤ o.maxHeader)
+    (lok : LayoutOK dp ip (payload roots bs).length)
+    (hok : ∀ b ∈ bs, b.wf o.maxSection ∧ b.cid.digest.length ≤ maxDigestAlloc ∧
+      (validate = true → sumOk H b.cid b.data = true ∧ verifies H b.cid b.data = true))
+    (hidx : hasIdx = true → ∃ rest, index = uvarint codec ++ rest ∧ codec < 2 ^ 63) :
+    inspect H o validate (layoutV2 dp ip (payload roots bs) hasIdx fi index)
+      = .ok (expectedStats 2 (finalHeader dp ip (payload roots bs).length hasIdx fi) (roots.getD []) bs
+              (if hasIdx then codec else 0)) :=
+  inspect_layoutV2 H hU o validate dp ip roots bs hasIdx fi index codec hwf hmax h63 h10 lok hok hidx
+
+/-- (3) **Whole file, both directions, every byte string**: full-validation inspection succeeds with
+    statistics `st` iff the container is accepted (`container`: pragma / CARv2 header / inner CARv1
+    header as `NewReader` and Inspect read them), the hash-verifying scan of the payload window's
+    sections ends cleanly with some block list, the index codec is readable when the header claims an
+    index, and `st` is the statistics computed from that block list. -/
+theorem inspect_iff_scan (H : HashFn) (hU : H.Uniform) (o : ReadOpts) (ht : o.trusted = false)
+    (hcap : o.maxSection ≤ maxDigestAlloc) (file : Bytes) (st : Stats) :
+    inspect H o true file = .ok st ↔
+      ∃ (v : Nat) (hdr : V2Header) (roots : List Cid) (secs : Bytes) (bs : List Block) (codec : Nat),
+        container o file = .ok (v, hdr, roots, secs) ∧
+        scanSections H o secs = (bs, .eof) ∧
+        indexProbe file v hdr = .ok codec ∧
+        st = expectedStats v hdr roots bs codec :=
+  inspect_full_iff H hU o ht hcap file st
+
+/-- (3a) a CID's byte length in a section is a function of the CID: the decoders accept only the
+    canonical encoding (so "CID length" statistics are determined by the scanned block list). -/
+theorem cid_length_canonical (s : Bytes) (n : Nat) (c : Cid) (rest : Bytes)
+    (h : cidFromReader s = .ok (n, c, rest)) : s = c.bytes ++ rest ∧ n = c.byteLen :=
+  cidFromReader_canonical s n c rest h
 
 /-- Non-vacuity of `Uniform`: a family with one fixed-length function is uniform. -/
 example : HashFn.Uniform (fun code d => if code = 0x12 then some (List.replicate 32 (UInt8.ofNat d.length)) else none) := by
